@@ -310,7 +310,9 @@ class Server:
         # all errors from initialization process
         errors = self.secnode.errors
 
-        if not self._testonly:
+        if not self._testonly and not errors:
+            # do not start anything (poll threads, writing of configured values)
+            # on a node with configuration errors
             start_events = MultiEvent(default_timeout=30)
             for modname, modobj in self.secnode.modules.items():
                 # startModule must return either a timeout value or None (default 30 sec)
